@@ -160,9 +160,11 @@ Proof.
   - injection H as <-. exists (g_fresh 0). split; [|apply new_epoch_fresh].
     destruct Hinv as ((Hwf & Hcap & _) & _).
     destruct (reset_fields s) as (R1 & R2 & R3 & R4 & R5 & R6 & R7).
+    revert R1 R2 R3 R4 R5 R6 R7. generalize (tcp_reset s). intros s0 R1 R2 R3 R4 R5 R6 R7.
     apply fresh_inv; unfold tcp_set_state; fld; rewrite ?R1, ?R2, ?R3, ?R4, ?R5, ?R6;
-      try reflexivity; try exact I; try lia;
-      first [apply rb_clear_wf; exact Hwf | exact Hcap | unfold max_window; lia | discriminate].
+      [apply rb_clear_wf; exact Hwf | exact Hcap | reflexivity | split; [apply Z.le_refl|reflexivity]
+      | reflexivity | reflexivity | unfold max_window; split; [apply Z.le_refl|discriminate]
+      | exact I | exact I | discriminate].
 Qed.
 
 Lemma connect_inv : forall cx g s ra rp lep s', inv g s -> ctx_ok cx ->
@@ -176,10 +178,12 @@ Proof.
   injection H as <-.
   destruct Hinv as ((Hwf & Hcap & _) & _).
   destruct (reset_fields s) as (R1 & R2 & R3 & R4 & R5 & R6 & R7).
+  revert R1 R2 R3 R4 R5 R6 R7. generalize (tcp_reset s). intros s0 R1 R2 R3 R4 R5 R6 R7.
   split; [|unfold tcp_set_state; fld; reflexivity].
   apply fresh_inv; unfold tcp_set_state; fld; rewrite ?R1, ?R2, ?R3, ?R4, ?R5, ?R6;
-    try reflexivity; try exact I; try lia;
-    first [apply rb_clear_wf; exact Hwf | exact Hcap | unfold max_window; lia | discriminate].
+    [apply rb_clear_wf; exact Hwf | exact Hcap | reflexivity | exact Hisn
+    | reflexivity | reflexivity | unfold max_window; split; [apply Z.le_refl|discriminate]
+    | exact I | exact I | discriminate].
 Qed.
 
 (* send_slice appends exactly the accepted prefix to the stream *)
@@ -211,22 +215,15 @@ Proof.
     - unfold tm_inv, tm_inv_f. rewrite B2, B5, B7. cbn [g_send g_flight].
       destruct Htm as (T1 & T2). split; [exact T1|]. intros Hi. left. auto. }
   fld_in H. destruct (Z.gtb_spec sz 0).
-  - match type of H with context [if ?b then upd_timer _ _ else _] => destruct b eqn:Ez end;
-    injection H as <- <-.
-    + split; [|split; [exact Hn|split; [fld; exact Hlen|reflexivity]]].
-      apply andb_prop in Ez. destruct Ez as (Ew & Ei). 
-      assert (Ei' : timer_is_idle (s_timer s) = true).
-      { destruct (rb_len (s_tx_buffer s) =? 0); fld_in Ei; exact Ei. }
-      assert (Ew' : s_remote_win_len s = 0).
-      { destruct (rb_len (s_tx_buffer s) =? 0); fld_in Ew; apply Z.eqb_eq in Ew; exact Ew. }
-      split.
-      * unfold tx_inv. destruct (rb_len (s_tx_buffer s) =? 0); fld; exact Hinv'.
-      * unfold tm_inv, tm_inv_f. cbn [g_send g_flight].
-        destruct (rb_len (s_tx_buffer s) =? 0); fld;
-        (split; [intros _; exact Ew'|unfold timer_set_for_zero_window_probe; cbn; discriminate]).
-    + split; [|split; [exact Hn|split; [|reflexivity]]].
-      * apply Hbase; [|reflexivity]. destruct (rb_len (s_tx_buffer s) =? 0); reflexivity.
-      * destruct (rb_len (s_tx_buffer s) =? 0); fld; exact Hlen.
-  - injection H as <- <-. split; [|split; [exact Hn|split; [fld; exact Hlen|reflexivity]]].
-    apply Hbase; reflexivity.
+  2: { injection H as <- <-. split; [|split; [exact Hn|split; [fld; exact Hlen|reflexivity]]].
+       apply Hbase; reflexivity. }
+  destruct (rb_len (s_tx_buffer s) =? 0); fld_in H;
+  (destruct ((s_remote_win_len s =? 0) && timer_is_idle (s_timer s)) eqn:Ez; injection H as <- <-;
+   (split; [|split; [exact Hn|split; [fld; exact Hlen|reflexivity]]]);
+   [ apply andb_prop in Ez; destruct Ez as (Ew & Ei); apply Z.eqb_eq in Ew;
+     split;
+     [ unfold tx_inv; fld; exact Hinv'
+     | unfold tm_inv, tm_inv_f; cbn [g_send g_flight]; fld;
+       split; [intros _; exact Ew|unfold timer_set_for_zero_window_probe; cbn; discriminate] ]
+   | apply Hbase; reflexivity ]).
 Qed.
